@@ -1,4 +1,4 @@
-add("C19", "checks/c19_lists.c", ["default-plain", "default-asan", "c89-plain"], ["default-plain", "default-asan", "c89-plain", "uchar-plain", "mcu-plain"],
+add("C19", "checks/c19_lists.c", ["default-plain", "default-asan", "c89-plain", "noinfo-plain"], ["default-plain", "default-asan", "c89-plain", "uchar-plain", "mcu-plain", "noinfo-plain"],
     "cases = expression bodies (enumerate: blocks of 243 bodies; grammar / mutate: one body each); every body is put as \"(\" body \")\" into an "
     "exact-size heap cell and queried with SCPI_ExprNumericListEntry, ...Int, ...Double at index 0..9 and SCPI_ExprChannelListEntry at index "
     "0..9 x capacity 0..4 (80 calls per body), each answer compared with a reference list parser (split at ',' ':' '!', every leaf a whole "
